@@ -129,7 +129,7 @@ type Interp struct {
 	prefix   []Decision
 	taken    []Decision
 	di       int
-	pc       []*Term
+	pc       []pcConj
 	steps    int
 	nvar     int
 	nondet   []NondetVar
@@ -142,11 +142,13 @@ type Interp struct {
 	onceUndo []*Obj
 	model      map[int]uint64
 	evalMemo   map[int]uint64
-	modelValid bool
 	pathVars   []*Term
 	pcSet      map[int]bool
-	pcVars     []*Term
-	pcSeen     map[int]bool
+	ufParent    map[int]int
+	compInvalid map[int]bool
+	varByID     map[int]*Term
+	varsMemo    map[int][]*Term
+	secScaled  map[int]*Term // Duration terms that are seconds*1e9 without overflow -> the seconds term
 	InitProblems []string
 	decProv  map[string]*Term
 }
@@ -161,7 +163,7 @@ type UnitConfig struct {
 }
 
 func NewInterp(p *Program, sol *Solver, cfg *UnitConfig) *Interp {
-	in := &Interp{P: p, ts: NewTermStore(), sol: sol, globals: map[*ssa.Global]*Obj{}, strCache: map[string]Str{},
+	in := &Interp{P: p, ts: NewTermStore(), sol: sol, globals: map[*ssa.Global]*Obj{}, strCache: map[string]Str{}, varsMemo: map[int][]*Term{},
 		slotCache: map[*types.Struct]int{}, cfg: cfg}
 	for i := 0; i < 256; i++ {
 		in.bytes[i] = in.ts.Const(8, uint64(i))
@@ -179,8 +181,8 @@ func (in *Interp) RunInits() (err error) {
 	in.res = &PathResult{Covers: map[string][]NondetValue{}}
 	in.decProv = map[string]*Term{}
 	in.ufCalls = map[string][]ufCall{}
-	in.pcSet = map[int]bool{}
-	in.pcSeen = map[int]bool{}
+	in.resetPC()
+	in.secScaled = map[int]*Term{}
 	in.env = newEnvState(in)
 	in.sched = newScheduler(in)
 	in.sched.runMain(func() {})
@@ -303,15 +305,12 @@ func (in *Interp) RunPath(unit string, fn *ssa.Function, prefix []Decision) (res
 	in.prefix = prefix
 	in.taken = in.taken[:0]
 	in.di = 0
-	in.pc = in.pc[:0]
 	in.steps = 0
 	in.nvar = 0
 	in.nondet = in.nondet[:0]
 	in.pathVars = in.pathVars[:0]
-	in.pcSet = map[int]bool{}
-	in.pcSeen = map[int]bool{}
-	in.pcVars = in.pcVars[:0]
-	in.modelValid = false
+	in.resetPC()
+	in.secScaled = map[int]*Term{}
 	in.unit = unit
 	in.ufCalls = map[string][]ufCall{}
 	in.decProv = map[string]*Term{}
@@ -354,42 +353,6 @@ func (in *Interp) incomplete(msg string) {
 	in.res.Incomplete = append(in.res.Incomplete, msg)
 }
 
-func (in *Interp) assume(c *Term) {
-	if c.IsTrue() {
-		return
-	}
-	in.pc = append(in.pc, c)
-	if c.Op == OpAnd {
-		for _, a := range c.Args {
-			in.pcSet[a.ID] = true
-		}
-	}
-	in.pcSet[c.ID] = true
-	in.notePCVars(c)
-	in.sol.Assert(c)
-	if in.modelValid && !in.evalBool(c) {
-		in.modelValid = false
-	}
-}
-
-func (in *Interp) feasible(c *Term) bool {
-	// literal already on the path condition (or its negation)?
-	if in.pcSet[c.ID] {
-		return true
-	}
-	if in.pcSet[in.ts.Not(c).ID] {
-		return false
-	}
-	switch in.sol.CheckWith(c) {
-	case Sat:
-		return true
-	case Unsat:
-		return false
-	}
-	in.incomplete("solver unknown at branch")
-	return true
-}
-
 func (in *Interp) record(k byte, v int64) {
 	in.taken = append(in.taken, Decision{k, v})
 	if len(in.taken) > in.cfg.MaxDecisions {
@@ -402,117 +365,6 @@ func (in *Interp) enqueue(alt Decision) {
 	copy(child, in.taken)
 	child[len(in.taken)] = alt
 	in.res.Children = append(in.res.Children, child)
-}
-
-// Branch decides a symbolic condition, forking if both sides are feasible.
-func (in *Interp) Branch(c *Term) bool {
-	if c.IsConst() {
-		return c.Val == 1
-	}
-	if in.di < len(in.prefix) {
-		d := in.prefix[in.di]
-		if d.K != 'B' {
-			panic(engineErr("non-deterministic replay: expected %c got branch", d.K))
-		}
-		in.di++
-		in.taken = append(in.taken, d)
-		if d.V == 1 {
-			in.assume(c)
-			return true
-		}
-		in.assume(in.ts.Not(c))
-		return false
-	}
-	nc := in.ts.Not(c)
-	if !in.ensureModel() {
-		panic(pathEnd{"infeasible", "branch"})
-	}
-	if in.modelValid {
-		// the cached model decides one side for free; one query for the other side
-		if in.evalBool(c) {
-			if in.feasible(nc) {
-				in.enqueue(Decision{'B', 0})
-			}
-			in.record('B', 1)
-			in.di++
-			in.assume(c)
-			return true
-		}
-		if in.feasible(c) {
-			in.enqueue(Decision{'B', 1})
-		}
-		in.record('B', 0)
-		in.di++
-		in.assume(nc)
-		return false
-	}
-	if !in.feasible(c) {
-		in.record('B', 0)
-		in.di++
-		in.assume(nc)
-		return false
-	}
-	if !in.feasible(nc) {
-		in.record('B', 1)
-		in.di++
-		in.assume(c)
-		return true
-	}
-	in.enqueue(Decision{'B', 0})
-	in.record('B', 1)
-	in.di++
-	in.assume(c)
-	return true
-}
-
-// Concretize forks over the feasible values of t and returns the chosen one (as signed 64-bit).
-func (in *Interp) Concretize(t *Term) int64 {
-	w := t.Sort.W
-	if t.IsConst() {
-		return sext64(t.Val, w)
-	}
-	for {
-		if in.di < len(in.prefix) {
-			d := in.prefix[in.di]
-			in.di++
-			in.taken = append(in.taken, d)
-			switch d.K {
-			case 'V':
-				in.assume(in.ts.Eq(t, in.ts.Const(w, uint64(d.V))))
-				return d.V
-			case 'N':
-				in.assume(in.ts.Not(in.ts.Eq(t, in.ts.Const(w, uint64(d.V)))))
-				continue
-			}
-			panic(engineErr("non-deterministic replay: expected value decision got %c", d.K))
-		}
-		if !in.ensureModel() {
-			panic(pathEnd{"infeasible", "concretize"})
-		}
-		var v int64
-		if in.modelValid {
-			v = sext64(in.evalT(t), w)
-		} else {
-			r := in.sol.Check()
-			if r != Sat {
-				in.incomplete("solver unknown at concretize")
-				panic(pathEnd{"engine", "solver unknown at concretize"})
-			}
-			vals, err := in.sol.GetValues([]*Term{t})
-			if err != nil {
-				panic(engineErr("get-value: %v", err))
-			}
-			v = sext64(vals[0], w)
-		}
-		eq := in.ts.Eq(t, in.ts.Const(w, uint64(v)))
-		if in.feasible(in.ts.Not(eq)) {
-			in.enqueue(Decision{'N', v})
-		}
-		in.record('V', v)
-		in.di++
-		in.assume(eq)
-		return v
-	}
 }
 
 // Choose returns a value in [0,n), forking over all alternatives.
@@ -1203,6 +1055,14 @@ func (in *Interp) binop(op token.Token, xt types.Type, a, b Value, yt types.Type
 				}
 			}
 			return r
+		case token.LSS, token.LEQ, token.GTR, token.GEQ:
+			if signed && x.Sort.W == 64 {
+				if r := in.cmpScaled(op, x, y); r != nil {
+					return r
+				}
+			}
+		}
+		switch op {
 		case token.LSS:
 			if signed {
 				return ts.Slt(x, y)
@@ -1273,6 +1133,55 @@ func (in *Interp) binop(op token.Token, xt types.Type, a, b Value, yt types.Type
 		}
 	}
 	panic(engineErr("unsupported binop %v on %T,%T", op, a, b))
+}
+
+// cmpScaled rewrites (secs*1e9) cmp K into a comparison on secs (exact: no overflow by construction).
+func (in *Interp) cmpScaled(op token.Token, x, y *Term) *Term {
+	ts := in.ts
+	const e9 = int64(1000000000)
+	flip := map[token.Token]token.Token{token.LSS: token.GTR, token.GTR: token.LSS, token.LEQ: token.GEQ, token.GEQ: token.LEQ}
+	sx, okx := in.secScaled[x.ID]
+	sy, oky := in.secScaled[y.ID]
+	if okx && oky {
+		x, y = sx, sy
+	} else if okx && y.IsConst() {
+		k := int64(y.Val)
+		fl := k / e9 // trunc toward zero
+		if k%e9 != 0 && k < 0 {
+			fl--
+		}
+		// s*1e9 < k  <=> s < ceil(k/1e9) ; s*1e9 <= k <=> s <= floor(k/1e9)
+		ceil := fl
+		if k%e9 != 0 {
+			ceil = fl + 1
+		}
+		x = sx
+		switch op {
+		case token.LSS:
+			y = ts.Const(64, uint64(ceil))
+		case token.LEQ:
+			y = ts.Const(64, uint64(fl))
+		case token.GTR:
+			y = ts.Const(64, uint64(fl))
+		case token.GEQ:
+			y = ts.Const(64, uint64(ceil))
+		}
+	} else if oky && x.IsConst() {
+		return in.cmpScaled(flip[op], y, x)
+	} else {
+		return nil
+	}
+	switch op {
+	case token.LSS:
+		return ts.Slt(x, y)
+	case token.LEQ:
+		return ts.Sle(x, y)
+	case token.GTR:
+		return ts.Slt(y, x)
+	case token.GEQ:
+		return ts.Sle(y, x)
+	}
+	return nil
 }
 
 func (in *Interp) fpBinop(op token.Token, x, y *Term) Value {
@@ -1557,11 +1466,9 @@ func (in *Interp) index(fr *frame, x *ssa.Index) Value {
 // boundsCheck branches on idx being within [0,n) and panics otherwise.
 func (in *Interp) boundsCheck(idx *Term, n int, signed bool) {
 	ts := in.ts
-	w := idx.Sort.W
-	ok := ts.Ult(idx, ts.Const(w, uint64(n)))
-	if signed && w < 64 {
-		ok = ts.And(ts.Sle(ts.Const(w, 0), idx), ts.Slt(ts.Sext(idx, 64), ts.Const(64, uint64(n))))
-	}
+	// compare at 64 bits so that n need not fit the index type
+	i64 := ts.Resize(idx, 64, signed)
+	ok := ts.Ult(i64, ts.Const(64, uint64(n)))
 	if !in.Branch(ok) {
 		panic(in.goPanicStr(fmt.Sprintf("runtime error: index out of range [%s] with length %d", idx, n)))
 	}
